@@ -110,7 +110,7 @@ package handlers
 // transactions hash to the merkle root of its header — and State.AddBlock (C13) only takes a block
 // whose header hash was requested.
 //@ func (*BlockHandler).Handle
-//@   serves C12 C04
+//@   serves C12 C04 C13
 //@   opt nomonitor = 1
 //@   opt partial = 1
 //@   requires handler != nil && handler.state != nil && state.InvQ(handler.state)
@@ -143,7 +143,7 @@ package handlers
 //@ spec hbase(h) = h != nil && same(h.state, h.blocks, h.txs, h.reorgs) && h.state != nil && h.txs != nil && h.reorgs != nil && repoOK(h.blocks) && state.InvQ(h.state)
 
 //@ func (*HeadersHandler).Handle
-//@   serves C02
+//@   serves C02 C13
 //@   opt nomonitor = 1
 //@   opt partial = 1
 
